@@ -400,6 +400,8 @@ func runC15(c *report.Ctx) {
 			c.Fail("AmountToString(api==masswallet)", "the two AmountToString implementations differ: the API and the wallet would print the same amount differently", p.Pos(a2sAPI.Pos()), "api:        "+sa, "masswallet: "+sb)
 		}
 	}
+	ruleAmountStringUntouched(c)
+	ruleAmountCtorErrorUsed(c)
 }
 
 func isFloaty(t types.Type) bool {
